@@ -34,6 +34,11 @@ def check(ctx):
     r10_2(ctx, m)
     r10_3(ctx, m)
     ctx.not_decided.append("BGZF virtual offsets produced by tell() in write mode resolve on read across blocks (pysam's contract)")
+    # mechanisms this property rests on (see shared.py): a change there is reported here as well
+    from . import shared as _sh
+
+    _sh.graph_loader(ctx)
+    _sh.cli_layer(ctx, "gaftools.cli.sort")
 
 
 def index_param(m):
